@@ -24,6 +24,8 @@ func init() {
 	wrap("C11", extra7C11)
 	wrap("C15", extra7C15)
 	wrap("C07", extra7C07)
+	wrap("C12", extra7C12)
+	wrap("C20", extra7C20)
 	wrap("C03", func(c *Ctx) { extra7Unbuffered(c, "C03-R18") })
 	wrap("C12", func(c *Ctx) { extra7Unbuffered(c, "C12-R12") })
 	wrap("C19", extra7C19)
@@ -804,4 +806,107 @@ func extra7Unbuffered(c *Ctx, rule string) {
 		}
 	}
 	c.Expect(rule, "body copies in downloadChunk", n, 1)
+}
+
+// ---------------------------------------------------------------------------------- C20
+
+func extra7C20(c *Ctx) {
+	rule := "C20-R10"
+	c.Rule(rule, "a token is special because of what it is, not where it sits: in Vocabulary.SpecialVocabulary every append to the special list is guarded by the token's type (Types[i] compared with a TOKEN_TYPE constant) or by its text (a test that reads Values[i]) — a bare id test makes an ordinary token of another vocabulary special (ids 105 and 106 are the byte tokens 0xac and 0xae of llama 3: their text \"¬\" / \"®\" is then matched literally, bypasses the byte mapping, and decodes to a lone byte)")
+	f := c.Fn(rule, "model", "Vocabulary.SpecialVocabulary")
+	if f == nil {
+		return
+	}
+	fSpecial := c.P.LookupField("model", "Vocabulary", "special")
+	fTypes := c.P.LookupField("model", "Vocabulary", "Types")
+	fValues := c.P.LookupField("model", "Vocabulary", "Values")
+	if fSpecial == nil || fTypes == nil || fValues == nil {
+		c.Undecided(rule, "anchor:Vocabulary.special/Types/Values", "-", "anchor lost")
+		return
+	}
+	n := 0
+	fns := append([]*core.Func{f}, f.Lits()...)
+	for _, fn := range fns {
+		info := fn.Info()
+		g := c.G(fn)
+		for _, h := range g.Find(func(nd ast.Node) bool {
+			as, ok := nd.(*ast.AssignStmt)
+			return ok && len(as.Lhs) == 1 && core.FieldVar(info, as.Lhs[0]) == fSpecial
+		}) {
+			n++
+			mentions := func(e ast.Node, fv *types.Var) bool {
+				found := false
+				ast.Inspect(e, func(m ast.Node) bool {
+					if se, ok := m.(*ast.SelectorExpr); ok && core.FieldVar(info, se) == fv {
+						found = true
+					}
+					return true
+				})
+				return found
+			}
+			ok := false
+			for _, a := range g.AtomsAt(h.Loc) {
+				if !a.Val {
+					continue
+				}
+				if mentions(a.Expr, fTypes) || mentions(a.Expr, fValues) {
+					ok = true
+				}
+			}
+			c.Check(rule, fn.Key()+" append:special#"+itoa(n)+" decided by type or text", c.Pos(h.Node), ok, "this token becomes special on a condition that reads neither its type nor its text")
+		}
+	}
+	c.Expect(rule, "appends to Vocabulary.special", n, 2)
+}
+
+// ---------------------------------------------------------------------------------- C12
+
+func extra7C12(c *Ctx) {
+	rule := "C12-R13"
+	c.Rule(rule, "a torn download record cannot block its digest: writePart truncates the record and then writes it, so a kill in between leaves an empty file — in blobDownload.Prepare the failure edge of readPart therefore reaches a removal of the records (os.Remove) and no return of the read error: returning it makes every repetition of the pull fail on the same file")
+	f := c.Fn(rule, "server", "blobDownload.Prepare")
+	if f == nil {
+		return
+	}
+	info := f.Info()
+	g := c.G(f)
+	reads := g.FindCalls("server.blobDownload.readPart")
+	c.Expect(rule, "readPart calls in Prepare", len(reads), 1)
+	for _, rd := range reads {
+		ev := core.ResultVar(info, rd.Top, rd.Node.(*ast.CallExpr), 1)
+		if ev == nil {
+			c.Violation(rule, f.Key()+" readPart error examined", c.Pos(rd.Node), "the error of readPart is dropped")
+			continue
+		}
+		n := 0
+		for _, cb := range g.CondBlocks() {
+			x, eq, isNil := core.IsNilCheck(info, cb.Cond)
+			if !isNil || !core.UsesObj(info, x, ev) || !g.Dominates(rd.Loc, g.CondLoc(cb.B)) {
+				continue
+			}
+			n++
+			fail := 0 // true edge of err != nil
+			if eq {
+				fail = 1
+			}
+			// no return of the read error itself, and the records are removed somewhere on the way
+			removes := false
+			var bad []core.Exit
+			for _, ex := range g.Walk(core.StartOf(cb.B.Succs[fail]), func(nd ast.Node, l core.Loc) bool {
+				if len(core.CallsTo(info, nd, false, "os.Remove", "os.RemoveAll")) > 0 {
+					removes = true
+				}
+				return false
+			}) {
+				if ex.Return == nil || len(ex.Return.Results) == 0 {
+					continue
+				}
+				if core.UsesObj(info, ex.Return.Results[len(ex.Return.Results)-1], ev) {
+					bad = append(bad, ex)
+				}
+			}
+			c.Check(rule, f.Key()+" unreadable record is discarded, not fatal", c.Pos(cb.Cond), len(bad) == 0 && removes, exitList(c, bad, "the failure edge of readPart returns the read error (or never removes the records): the pull fails on the same file every time it is repeated"))
+		}
+		c.Expect(rule, "tests of readPart's error in Prepare", n, 1)
+	}
 }
